@@ -896,3 +896,19 @@ Theorem C01_chiral_order_example :
   exists W tr, chiral_morgan hash_ztuple exc_g exc_tabs exc_ao exc_ord = Ok (W, tr) /\ tr <> [] /\ NoDup (map snd W).
 Proof. exact chiral_order_example. Qed.
 Print Assumptions C01_chiral_order_example.
+
+(* == and hash for such a molecule and its renumbered copy *)
+Theorem C01_canonical_eq_hash_renumbering_uniform :
+  forall (h : list Z -> Z) (str_hash : string -> Z) (ring ring' : Z -> bool) (g : mol) (s tb tb' : Z -> Z)
+         (o : opts) (tabs : stabs) (ctabs : cmtabs) (ord ord2 : cmorders) (ao W : labels) (tr : list labels),
+  wf_mol g = true -> (forall x y, s x = s y -> x = y) -> s 0 = 0 -> (forall n, In n (ids g) -> ring' (s n) = ring n) -> o_mapping o = false ->
+  atoms_order h ring g = Ok ao ->
+  uniform_run_b h g ctabs (diff_fuel ord) ao (o_atoms ord) (o_ct ord) (o_al ord) = true ->
+  chiral_morgan h g ctabs ao ord = Ok (W, tr) -> inj_on (ids g) (lbl W) ->
+  Permutation (map s (o_atoms ord)) (o_atoms ord2) -> Permutation (map (ren_pairv s) (o_ct ord)) (o_ct ord2) ->
+  Permutation (map s (o_al ord)) (o_al ord2) ->
+  exists W', chiral_morgan h (ren_mol s g) (ren_cmtabs s ctabs) (ren_labels s ao) ord2 = Ok (W', map (ren_labels s) tr) /\
+    let d := mkDesc g (lbl W) tb tabs in let d' := mkDesc (ren_mol s g) (lbl W') tb' (ren_tabs s tabs) in
+    mol_eq (canon_of o) d' d = true /\ mol_hash (canon_of o) str_hash d' = mol_hash (canon_of o) str_hash d.
+Proof. exact canonical_eq_hash_renumbering_uniform. Qed.
+Print Assumptions C01_canonical_eq_hash_renumbering_uniform.
